@@ -15,7 +15,8 @@ RULE = ("cases are (rule, content value, with/without children for mixed rules):
         "canonical forms and random strings per constraint kind; each case runs single-node validation in both modes. "
         "distinct = distinct (content-constraint signature, mixed?, children?, content) - rules that share a signature "
         "count once; non-trivial = the reference classifier gives accept or reject (unspecified cases are executed for "
-        "totality but are neither compared nor counted)")
+        "totality but are neither compared nor counted)"
+        ". Also: long-lived nodes whose content is replaced in place, the childless node right after the same content on a node with children, pre-filled error lists, non-ASCII signs and separators, the four bounding-coordinate elements against the axis their names say")
 ASSUMPTIONS = [
     "canonical forms: integer -?[0-9]+; float [-+]?digits[.digits][e[-+]digits]; time HH:MM[:SS[.fff|.ffffff]][+-HH:MM]; "
     "year YYYY>=0001 or real calendar date YYYY-MM-DD; URI (http|https|ftp)://dns-or-ipv4-host[:port][/path][?q][#f]",
